@@ -1102,6 +1102,29 @@ pub fn collect_typedefs(
         }
     }
 
+    // A foreign type is the Go type of the first foreign function of this package that mentions it;
+    // one that none mentions stands for nothing, and Go would not know its name.
+    for item in hir.toplevels.iter() {
+        if let hir::Def::ExternType(ext) = hir_table.def(*item) {
+            let name = ext.goml_name.to_ident_name();
+            let unbound = env
+                .current()
+                .type_env
+                .extern_types
+                .get(&name)
+                .is_some_and(|ty| ty.package_path.is_none());
+            if unbound {
+                super::util::push_error(
+                    diagnostics,
+                    format!(
+                        "Foreign type {} stands for no Go type: no `extern \"go\"` function of this package mentions it",
+                        name
+                    ),
+                );
+            }
+        }
+    }
+
     let struct_names: Vec<String> = hir
         .toplevels
         .iter()
